@@ -62,7 +62,10 @@ def cases(draw, max_n=40):
     maint = draw(st.sampled_from((None, None, "purge+calculate_index+calculate", "recalculate", "calculate_index")))
     # the Hexital itself may collapse (its default candles are then a timeframe too, possibly the same one a member names)
     hx_tf = draw(st.sampled_from((None, None, None, "T5", "T1", "T10")))
-    return {"hx_tf": hx_tf, "members": members, "stream": stream, "fill": fill, "lifespan": lifespan, "maintenance": maint, "preload": preload, "chunks": draw(gs.chunking(n - preload))}
+    # every member registered through add_indicator on a Hexital built without an indicator list, next to a second
+    # ("decoy") Hexital built the same way for another instrument with the same indicator names
+    late_all = draw(st.integers(0, 4)) == 0
+    return {"late_all": late_all, "hx_tf": hx_tf, "members": members, "stream": stream, "fill": fill, "lifespan": lifespan, "maintenance": maint, "preload": preload, "chunks": draw(gs.chunking(n - preload))}
 
 
 def run_case(case) -> Result:
@@ -84,7 +87,16 @@ def run_case(case) -> Result:
             labels.append("hexital_timeframe")
             if any(m["tf"] == case["hx_tf"] for m in case["members"]):
                 labels.append("member_names_the_hexital_timeframe")
-        hx = Hexital("c20", mk_candles(rows[:pre]), inds, timeframe_fill=bool(case.get("fill")), **extra)
+        if case.get("late_all"):
+            labels.append("registered_late_next_to_a_decoy")
+            hx = Hexital("c20", mk_candles(rows[:pre]), None, timeframe_fill=bool(case.get("fill")), **extra)
+            hx.add_indicator(inds)
+            decoy_rows = [[r[0]] + [x * 3 + 7 for x in r[1:5]] + [r[5]] for r in rows[: max(3, len(rows) // 2)]]
+            decoy = Hexital("decoy", mk_candles(decoy_rows), None, timeframe_fill=bool(case.get("fill")), **extra)
+            decoy.add_indicator([build_indicator(m["cfg"], **({"timeframe": m["tf"]} if m["tf"] else {})) for m in case["members"]])
+            decoy.calculate()
+        else:
+            hx = Hexital("c20", mk_candles(rows[:pre]), inds, timeframe_fill=bool(case.get("fill")), **extra)
         hx.calculate()
         rest = rows[pre:]
         for a, b in split_chunks(len(rest), case.get("chunks", [])):
